@@ -1,17 +1,20 @@
 \* The repaired design (CR escaped, NULL entries parse, char16 keybindings typed,
-\* boolean parameter values parsed): every tree of <= 3 elements, both modes.
+\* boolean parameter values parsed).  "Pointwise" configuration: every element kind
+\* with every type x shape x value class, alone or below one parent, at most two
+\* attributes set, both escaping modes.
 SPECIFICATION Spec
 CONSTANTS
-  Types = {"string", "char16", "boolean", "uint8", "real32", "datetime", "reference"}
+  Types = {"string", "char16", "boolean", "uint8", "sint64", "real32", "datetime", "reference"}
   QualTypes = {"string", "boolean"}
-  KeyTypes = {"string", "char16", "uint8", "numeric"}
+  KeyTypes = {"string", "char16", "uint8", "boolean", "numeric"}
   Shapes = {"null", "nulla", "scalar", "empty", "v", "n", "vn"}
   StrVals <- StrValsSmall
   CharVals = {"ltr", "amp"}
-  Names = {"a", "b"}
-  MaxEls = 3
-  MaxDepth = 2
-  MaxKids = 2
+  Names = {"a"}
+  MaxEls = 2
+  MaxDepth = 1
+  MaxKids = 1
+  MaxAttrs = 1
   Modes = {"entity", "cdata"}
   W <- WFixed
   RootKinds = {"inst", "class", "ipath", "cpath", "prop", "pval", "qual", "qdecl", "meth", "parm"}
